@@ -30,3 +30,16 @@ PROPS["C18"] = dict(
         dict(test="^TestC18_Random$", quick=dict(checks=3000, timeout=600), thorough=dict(checks=40000, shards=8, timeout=1800)),
     ],
 )
+
+PROPS["C17"] = dict(
+    pkg="c17", level="exploration",
+    technique="grammar-based generation with an independent reference flattener, metamorphic re-rendering, mutation/totality search and native fuzzing",
+    level_text="Exploration: well-formed expressions are generated from the grammar (as a specification) and the returned map is compared with an independent flattener of the AST, then re-rendered with other spacing; totality is searched with random bytes, token soup, mutations of valid inputs, pathological shapes up to the 64 KiB bound, and coverage-guided fuzzing.",
+    level_note="Trusted: the harness's AST generator/renderer/flattener (written from Expr.g4 and the property text). Totality is sampled, not proved; a 120 s watchdog expiry is reported as inconclusive, not as a violation.",
+    rule="ASTs generated from Expr.g4 rendered with random spacing (exactness) and random/mutated/pathological inputs (totality)",
+    steps=[
+        dict(test="^Test(Regress_C17|C17_Exact|C17_Total)$", quick=dict(checks=2500, timeout=900), thorough=dict(checks=30000, shards=12, timeout=3000)),
+        dict(test="^TestC17_Large$", quick=dict(timeout=900), thorough=dict(timeout=3000)),
+    ],
+    fuzz=[dict(target="FuzzC17", seconds=150)],
+)
